@@ -214,6 +214,8 @@ impl WorkerPool {
                     }
                 }
                 Err(RecvTimeoutError::Timeout) => {
+                    #[cfg(huginn_net_verif)]
+                    crate::verif_hooks::perturb(3);
                     if shutdown_flag.load(Ordering::Relaxed) {
                         debug!("HTTP worker {} received shutdown signal", worker_id);
                         break;
